@@ -20,6 +20,13 @@ def state_array(seed, lv, b, shape_g, ns):
     nst = 7 + ns
     arr = _rng(seed, "S", lv, b).uniform(-100.0, 100.0, tuple(shape_g) + (nst,))
     arr[..., 4:4 + ns] = _rng(seed, "SY", lv, b).uniform(0.05, 1.0, tuple(shape_g) + (ns,))
+    if seed % 3 == 1 and ns >= 2:
+        # what a real checkpoint carries: undershoots of the advection scheme (slightly negative mass fractions, the cell's sum
+        # stays positive) and negative zeros; "rescaled to sum to one" means divided by the sum, whatever the signs
+        pick = _rng(seed, "SYu", lv, b).random(tuple(shape_g) + (ns,))
+        y = arr[..., 4:4 + ns]
+        y[..., 1:][pick[..., 1:] < 0.10] *= -1e-3
+        y[..., 1:][(pick[..., 1:] >= 0.10) & (pick[..., 1:] < 0.13)] = -0.0
     return arr
 
 
